@@ -409,6 +409,9 @@ FUNCS = [
 ]
 SPLITTERS = ('traversal_path_info', 'split_path_info')
 
+# every source function whose control flow is regenerated on every run (tools/coverage_map.py reads this)
+TRANSLATED = ['pyramid/static.py:' + f['qual'] for f in FUNCS]
+
 
 class Val:
     def __init__(self, term, ty):
